@@ -489,7 +489,10 @@ def make_policy(rng, n_threads: int, horizon: int) -> Policy:
 
 
 class ScheduleSim:
-    def __init__(self, threads: list[list[dict]], policy: Policy, marks, cap: int, scratch: str):
+    def __init__(self, threads: list[list[dict]], policy: Policy, marks, cap: int, scratch: str,
+                 granularity: str = "line"):
+        self.granularity = granularity
+        self._hot_offsets: dict[int, frozenset[int]] = {}
         self.scripts = threads
         self.n = len(threads)
         self.policy = policy
@@ -534,6 +537,24 @@ class ScheduleSim:
         if k is None:
             return None
         self._event(k, line in m, code.co_name, line)
+        return None
+
+    def on_instruction(self, code, offset):
+        """Bytecode-granularity pre-emption: one event per instruction of repository code."""
+        m = self.marks.get(code.co_filename)
+        if m is None:
+            return mon.DISABLE
+        k = self.ident2k.get(_thread.get_ident())
+        if k is None:
+            return None
+        hot = self._hot_offsets.get(id(code))
+        if hot is None:
+            hot = frozenset(
+                ins.offset for ins in dis.get_instructions(code)
+                if ins.opname in _STORE_OPS or (ins.opname in ("LOAD_ATTR", "LOAD_METHOD") and ins.argval in _MUTATOR_NAMES)
+            )
+            self._hot_offsets[id(code)] = hot
+        self._event(k, offset in hot, code.co_name, offset)
         return None
 
     def _event(self, k, now_hot, fn, line):
@@ -689,12 +710,17 @@ class ScheduleSim:
         _CURRENT_SIM = self
         if mon.get_tool(TOOL) is None:
             mon.use_tool_id(TOOL, TOOL_NAME)
-        mon.register_callback(TOOL, mon.events.LINE, self.on_line)
+        if self.granularity == "instruction":
+            event = mon.events.INSTRUCTION
+            mon.register_callback(TOOL, event, self.on_instruction)
+        else:
+            event = mon.events.LINE
+            mon.register_callback(TOOL, event, self.on_line)
         threads = [threading.Thread(target=self._body, args=(k,), daemon=True) for k in range(self.n)]
         for t in threads:
             t.start()
         # every thread is parked on its gate before events are switched on
-        mon.set_events(TOOL, mon.events.LINE)
+        mon.set_events(TOOL, event)
         mon.restart_events()
         first = self.policy.first(self)
         self.log.add(None, "start", first)
@@ -718,7 +744,8 @@ def run_schedule_task(task: dict) -> dict:
         else:
             rng = rng_for(*task["seed_parts"], "policy")
             policy = make_policy(rng, len(threads), task.get("horizon", 20000))
-        sim = ScheduleSim(threads, policy, _MARKS, task.get("cap", 5_000_000), scratch)
+        sim = ScheduleSim(threads, policy, _MARKS, task.get("cap", 5_000_000), scratch,
+                          task.get("granularity", "line"))
         t0 = time.monotonic()
         finished = sim.run(task.get("wall", 300.0))
         wall = time.monotonic() - t0
@@ -741,6 +768,7 @@ def run_schedule_task(task: dict) -> dict:
             "fn_pairs": sorted(sim.fn_pairs),
             "aborts_fired": sim.aborts_fired,
             "policy": policy.describe(),
+            "granularity": sim.granularity,
             "errors": sim.errors,
             "threads": threads,  # with at_step filled in: the literal trace
             "wall": wall,
